@@ -38,9 +38,10 @@ package taproot
 //   t = bytes(d) xor tagged("BIP0340/aux", a)           -- computed in place on the encoding of the NORMALISED d
 //   rand = tagged("BIP0340/nonce", t || bytes(P) || m),  k' = int(rand) mod n (fail if 0), R = k'*G, k = k' or n - k'
 //   e = int(tagged("BIP0340/challenge", bytes(R) || bytes(P) || m)) mod n,  sig = bytes(R) || bytes((k + e*d) mod n)
-//@ axiom forall(x, integer, s_neg(s_neg(x)) == x)
+//@ rawaxiom[negneg] (forall ((x Int)) (! (= (s_neg (s_neg x)) x) :pattern ((s_neg (s_neg x)))))
 //@ func (SecretKey).Sign
 //@   nopanic[C05,C16]
+//@   use negneg
 //@   let d0 = sc_of_bytes(bval(sk))
 //@   let Pv = act(d0, gen())
 //@   let dn = ite(even_y(Pv), d0, s_neg(d0))
